@@ -16,6 +16,7 @@ Definition zero32b : bytes := repeat x00 32.
 (* ComputeEntropy(inTxHash, inTxIndex, contractHash) *)
 Definition compute_entropy (hash : bytes) (index : N) (chash : bytes) : option bytes :=
   if negb (length hash =? 32)%nat then None
+  else if negb (length chash =? 32)%nat then None
   else Some (midstate256 (dsha256 (hash ++ le_enc 4 index) ++ chash)).
 
 (* ComputeAsset(entropy) *)
@@ -29,8 +30,8 @@ Definition compute_token (entropy : bytes) (flag : N) : option bytes :=
   else if negb ((flag =? 0) || (flag =? 1)) then None
   else Some (midstate256 (entropy ++ b8 (flag + 1) :: repeat x00 31)).
 
-(* ---------- contract hash ---------- *)
-Record contract := mk_contract {
+(* ---------- iss_contract hash ---------- *)
+Record iss_contract := mk_iss_contract {
   c_name : bytes; c_ticker : bytes; c_version : N; c_precision : N; c_pubkey : bytes; c_domain : bytes }.
 
 (* decimal digits of n (encoding/json prints a float64 that holds an integer below 2^53
@@ -43,7 +44,7 @@ Fixpoint dec_digits (fuel : nat) (n : N) (acc : bytes) : bytes :=
   end.
 Definition dec_of_N (n : N) : bytes := dec_digits 20 n [].
 
-Inductive jvalue := JStr (s : bytes) | JNum (n : N) | JObj (fields : list (bytes * jvalue)).
+Inductive iss_jvalue := JStr (s : bytes) | JNum (n : N) | JObj (fields : list (bytes * iss_jvalue)).
 
 (* byte-wise lexicographic order on keys (sort.Strings on ASCII keys) *)
 Fixpoint bytes_ltb (a b : bytes) : bool :=
@@ -53,20 +54,20 @@ Fixpoint bytes_ltb (a b : bytes) : bool :=
   | x :: a', y :: b' => if n8 x <? n8 y then true else if n8 y <? n8 x then false else bytes_ltb a' b'
   end.
 
-Fixpoint insert_field (f : bytes * jvalue) (l : list (bytes * jvalue)) : list (bytes * jvalue) :=
+Fixpoint insert_field (f : bytes * iss_jvalue) (l : list (bytes * iss_jvalue)) : list (bytes * iss_jvalue) :=
   match l with
   | [] => [f]
   | g :: r => if bytes_ltb (fst g) (fst f) then g :: insert_field f r else f :: l
   end.
-Definition sort_fields (l : list (bytes * jvalue)) : list (bytes * jvalue) :=
+Definition sort_fields (l : list (bytes * iss_jvalue)) : list (bytes * iss_jvalue) :=
   fold_right insert_field [] l.
 
-Definition quote : byte := b8 34.
-Definition jstr (s : bytes) : bytes := quote :: s ++ [quote].
+Definition iss_quote : byte := b8 34.
+Definition jstr (s : bytes) : bytes := iss_quote :: s ++ [iss_quote].
 
 (* json.Marshal of map[string]interface{}: keys sorted, no white space; strings are written
    verbatim between quotes, which is what encoding/json does on the alphabet of wf_jchar *)
-Fixpoint ser_json (fuel : nat) (v : jvalue) : bytes :=
+Fixpoint ser_json (fuel : nat) (v : iss_jvalue) : bytes :=
   match fuel with
   | O => []
   | S f =>
@@ -81,33 +82,33 @@ Fixpoint ser_json (fuel : nat) (v : jvalue) : bytes :=
     end
   end.
 
-Definition ascii (l : list N) : bytes := map b8 l.
-Definition k_name : bytes := ascii [110;97;109;101].
-Definition k_ticker : bytes := ascii [116;105;99;107;101;114].
-Definition k_version : bytes := ascii [118;101;114;115;105;111;110].
-Definition k_precision : bytes := ascii [112;114;101;99;105;115;105;111;110].
-Definition k_pubkey : bytes := ascii [105;115;115;117;101;114;95;112;117;98;107;101;121].
-Definition k_entity : bytes := ascii [101;110;116;105;116;121].
-Definition k_domain : bytes := ascii [100;111;109;97;105;110].
+Definition iss_ascii (l : list N) : bytes := map b8 l.
+Definition k_name : bytes := iss_ascii [110;97;109;101].
+Definition k_ticker : bytes := iss_ascii [116;105;99;107;101;114].
+Definition k_version : bytes := iss_ascii [118;101;114;115;105;111;110].
+Definition k_precision : bytes := iss_ascii [112;114;101;99;105;115;105;111;110].
+Definition k_pubkey : bytes := iss_ascii [105;115;115;117;101;114;95;112;117;98;107;101;121].
+Definition k_entity : bytes := iss_ascii [101;110;116;105;116;121].
+Definition k_domain : bytes := iss_ascii [100;111;109;97;105;110].
 
-(* the struct in declaration order, as json.Marshal(contract) emits it *)
-Definition contract_fields (c : contract) : list (bytes * jvalue) :=
+(* the struct in declaration order, as json.Marshal(iss_contract) emits it *)
+Definition contract_fields (c : iss_contract) : list (bytes * iss_jvalue) :=
   [(k_name, JStr (c_name c)); (k_ticker, JStr (c_ticker c)); (k_version, JNum (c_version c));
    (k_precision, JNum (c_precision c)); (k_pubkey, JStr (c_pubkey c));
    (k_entity, JObj [(k_domain, JStr (c_domain c))])].
 
-(* orderJsonKeysLexographically(json.Marshal(contract)) *)
-Definition contract_json (c : contract) : bytes := ser_json 3 (JObj (contract_fields c)).
+(* orderJsonKeysLexographically(json.Marshal(iss_contract)) *)
+Definition contract_json (c : iss_contract) : bytes := ser_json 3 (JObj (contract_fields c)).
 (* chainhash.HashB: one SHA-256 *)
-Definition contract_hash (c : contract) : bytes := sha256 (contract_json c).
+Definition contract_hash (c : iss_contract) : bytes := sha256 (contract_json c).
 
 (* the characters encoding/json copies through unchanged in both directions: printable ASCII
-   without the quote, the backslash and the three HTML-escaped characters < > & *)
+   without the iss_quote, the backslash and the three HTML-escaped characters < > & *)
 Definition wf_jchar (b : byte) : bool :=
   let n := n8 b in
   (32 <=? n) && (n <=? 126) && negb ((n =? 34) || (n =? 92) || (n =? 60) || (n =? 62) || (n =? 38)).
 Definition two53 : N := 9007199254740992.
-Definition wf_contract (c : contract) : bool :=
+Definition wf_contract (c : iss_contract) : bool :=
   forallb wf_jchar (c_name c) && forallb wf_jchar (c_ticker c) && forallb wf_jchar (c_pubkey c) &&
   forallb wf_jchar (c_domain c) && (c_version c <? two53) && (c_precision c <? two53).
 
@@ -115,12 +116,12 @@ Definition wf_contract (c : contract) : bool :=
 Record iss_ext := mk_iss_ext { ie_iss : issuance; ie_precision : N; ie_chash : bytes }.
 
 (* elementsutil.ValueToBytes *)
-Definition value_to_bytes (v : N) : bytes := b8 1 :: be_enc 8 v.
+Definition iss_value_to_bytes (v : N) : bytes := b8 1 :: be_enc 8 v.
 (* toConfidentialIssuanceAmount *)
-Definition issuance_amount (v : N) : bytes := if v =? 0 then [x00] else value_to_bytes v.
+Definition issuance_amount (v : N) : bytes := if v =? 0 then [x00] else iss_value_to_bytes v.
 
-(* NewTxIssuance(assetAmount, tokenAmount, precision, contract) *)
-Definition new_tx_issuance (asset token precision : N) (c : option contract) : option iss_ext :=
+(* NewTxIssuance(assetAmount, tokenAmount, precision, iss_contract) *)
+Definition new_tx_issuance (asset token precision : N) (c : option iss_contract) : option iss_ext :=
   if 8 <? precision then None else
   match c with
   | Some ct =>
@@ -151,7 +152,7 @@ Definition new_from_input (hash : bytes) (index : N) (s : issuance) : option iss
   else generate_entropy (from_contract_hash (iss_entropy s)) hash index.
 
 (* ---------- decoded destination address ---------- *)
-Record addr := mk_addr {
+Record iss_addr := mk_iss_addr {
   ad_present : bool;     (* len(address) > 0 *)
   ad_valid : bool;       (* address.DecodeType / ToOutputScript succeed *)
   ad_conf : bool;        (* address.IsConfidential *)
@@ -159,8 +160,8 @@ Record addr := mk_addr {
   ad_key : bytes }.      (* blinding key of a confidential address *)
 
 Record iss_args := mk_iss_args {
-  ia_precision : N; ia_contract : option contract; ia_asset : N; ia_token : N;
-  ia_aaddr : addr; ia_taddr : addr; ia_blinded : bool (* psetv2 only *) }.
+  ia_precision : N; ia_contract : option iss_contract; ia_asset : N; ia_token : N;
+  ia_aaddr : iss_addr; ia_taddr : iss_addr; ia_blinded : bool (* psetv2 only *) }.
 
 Definition explicit_asset (id : bytes) : bytes := b8 1 :: id.
 (* transaction.NewTxOutput *)
@@ -180,16 +181,16 @@ Definition set_in_iss (i : txin) (s : issuance) : txin :=
   mk_in (in_hash i) (in_index i) (in_seq i) (in_script i) (in_witness i) (in_pegin i) (in_pegwit i)
         (Some s) (in_irp i) (in_inrp i).
 
-Fixpoint set_nth {A} (n : nat) (f : A -> A) (l : list A) : list A :=
+Fixpoint iss_set_nth {A} (n : nat) (f : A -> A) (l : list A) : list A :=
   match l, n with
   | [], _ => []
   | x :: r, O => f x :: r
-  | x :: r, S k => x :: set_nth k f r
+  | x :: r, S k => x :: iss_set_nth k f r
   end.
 
 Definition v0_set_iss (p : v0pkt) (idx : nat) (s : issuance) : v0pkt :=
   let t := v0_tx p in
-  mk_v0pkt (mk_tx (t_version t) (t_flag t) (t_locktime t) (set_nth idx (fun i => set_in_iss i s) (t_ins t)) (t_outs t))
+  mk_v0pkt (mk_tx (t_version t) (t_flag t) (t_locktime t) (iss_set_nth idx (fun i => set_in_iss i s) (t_ins t)) (t_outs t))
            (v0_nin p) (v0_nout p).
 
 (* findInputWithEmptyIssuance *)
@@ -211,7 +212,7 @@ Definition v0_validate (a : iss_args) : bool :=
        else Bool.eqb (ad_conf (ia_aaddr a)) (ad_conf (ia_taddr a)))
   end.
 
-Definition flag_of (b : bool) : N := if b then 1 else 0.
+Definition iss_flag_of (b : bool) : N := if b then 1 else 0.
 
 (* Updater.AddIssuance: (nil error?, packet afterwards) *)
 Definition v0_add_issuance (p : v0pkt) (a : iss_args) : bool * v0pkt :=
@@ -238,7 +239,7 @@ Definition v0_add_issuance (p : v0pkt) (a : iss_args) : bool * v0pkt :=
                       then v0_add_output p1 (new_tx_output (explicit_asset asset) (iss_amount s) (ad_script (ia_aaddr a)))
                       else p1 in
             if 0 <? ia_token a then
-              match generate_token iss (flag_of (ad_conf (ia_aaddr a))) with
+              match generate_token iss (iss_flag_of (ad_conf (ia_aaddr a))) with
               | None => (false, p2)
               | Some token =>
                 if negb (ad_valid (ia_taddr a)) then (false, p2) else
@@ -252,45 +253,45 @@ Definition v0_add_issuance (p : v0pkt) (a : iss_args) : bool * v0pkt :=
   end.
 
 (* AddReissuanceArgs, with the hex strings decoded and the UTXO clauses of validate summarised *)
-Record reiss_args := mk_reiss_args {
-  ra_utxo_ok : bool;          (* a UTXO is given, matches the prevout hash and is confidential *)
-  ra_hash : option bytes;     (* hex.DecodeString(PrevOutHash), None if not hex *)
-  ra_index : N;
-  ra_blinder : bytes;
-  ra_entropy : option bytes;  (* hex.DecodeString(Entropy) *)
-  ra_asset : N; ra_token : N;
-  ra_aaddr : addr; ra_taddr : addr }.
+Record v0_reiss_args := mk_v0_reiss_args {
+  rva_utxo_ok : bool;          (* a UTXO is given, matches the prevout hash and is confidential *)
+  rva_hash : option bytes;     (* hex.DecodeString(PrevOutHash), None if not hex *)
+  rva_index : N;
+  rva_blinder : bytes;
+  rva_entropy : option bytes;  (* hex.DecodeString(Entropy) *)
+  rva_asset : N; rva_token : N;
+  rva_aaddr : iss_addr; rva_taddr : iss_addr }.
 
-Definition hex32 (o : option bytes) : bool :=
+Definition iss_hex32 (o : option bytes) : bool :=
   match o with Some b => (length b =? 32)%nat | None => false end.
-Definition obytes (o : option bytes) : bytes := match o with Some b => b | None => [] end.
+Definition iss_obytes (o : option bytes) : bytes := match o with Some b => b | None => [] end.
 
-Definition v0_reiss_validate (a : reiss_args) : bool :=
-  ra_utxo_ok a && hex32 (ra_hash a) && (length (ra_blinder a) =? 32)%nat && hex32 (ra_entropy a) &&
-  (0 <? ra_asset a) && (0 <? ra_token a) &&
-  ad_present (ra_aaddr a) && ad_valid (ra_aaddr a) && ad_present (ra_taddr a) && ad_valid (ra_taddr a) &&
-  ad_conf (ra_aaddr a) && ad_conf (ra_taddr a).
+Definition v0_reiss_validate (a : v0_reiss_args) : bool :=
+  rva_utxo_ok a && iss_hex32 (rva_hash a) && (length (rva_blinder a) =? 32)%nat && iss_hex32 (rva_entropy a) &&
+  (0 <? rva_asset a) && (0 <? rva_token a) &&
+  ad_present (rva_aaddr a) && ad_valid (rva_aaddr a) && ad_present (rva_taddr a) && ad_valid (rva_taddr a) &&
+  ad_conf (rva_aaddr a) && ad_conf (rva_taddr a).
 
 (* transaction.NewTxInput *)
 Definition new_tx_input (hash : bytes) (index : N) : txin :=
   mk_in hash (if index =? MinusOne then index else N.land index OutpointIndexMask) 4294967295 [] [] false [] None [] [].
 
 (* Updater.AddReissuance *)
-Definition v0_add_reissuance (p : v0pkt) (a : reiss_args) : bool * v0pkt :=
+Definition v0_add_reissuance (p : v0pkt) (a : v0_reiss_args) : bool * v0pkt :=
   if negb (v0_reiss_validate a) then (false, p) else
   if v0_nin p =? 0 then (false, p) else
-  let prevout_hash := rev (obytes (ra_hash a)) in
-  let p1 := v0_add_input p (new_tx_input prevout_hash (ra_index a)) in
+  let prevout_hash := rev (iss_obytes (rva_hash a)) in
+  let p1 := v0_add_input p (new_tx_input prevout_hash (rva_index a)) in
   let input_index := N.to_nat (v0_nin p1 - 1) in
-  let entropy := rev (obytes (ra_entropy a)) in
+  let entropy := rev (iss_obytes (rva_entropy a)) in
   let iss := from_entropy entropy in
   let asset := match generate_asset iss with Some x => x | None => [] end in
   let token := match generate_token iss 1 with Some x => x | None => [] end in
-  let asset_amount := value_to_bytes (ra_asset a) in
-  let token_amount := value_to_bytes (ra_token a) in
-  let p2 := v0_add_output p1 (new_tx_output (explicit_asset asset) asset_amount (ad_script (ra_aaddr a))) in
-  let p3 := v0_add_output p2 (new_tx_output (explicit_asset token) token_amount (ad_script (ra_taddr a))) in
-  (true, v0_set_iss p3 input_index (mk_iss (ra_blinder a) entropy asset_amount [x00])).
+  let asset_amount := iss_value_to_bytes (rva_asset a) in
+  let token_amount := iss_value_to_bytes (rva_token a) in
+  let p2 := v0_add_output p1 (new_tx_output (explicit_asset asset) asset_amount (ad_script (rva_aaddr a))) in
+  let p3 := v0_add_output p2 (new_tx_output (explicit_asset token) token_amount (ad_script (rva_taddr a))) in
+  (true, v0_set_iss p3 input_index (mk_iss (rva_blinder a) entropy asset_amount [x00])).
 
 (* ---------- PSET v2 (the fields the issuance logic reads and writes) ---------- *)
 Record v2in := mk_v2in {
@@ -310,27 +311,27 @@ Record v2pkt := mk_v2pkt {
   v2_outs_modifiable : bool;            (* OutputsModifiable() *)
   v2_ins : list v2in; v2_outs : list v2out }.
 
-Definition olen (o : option bytes) : nat := length (obytes o).
-Definition is_some {A} (o : option A) : bool := match o with Some _ => true | None => false end.
+Definition iss_olen (o : option bytes) : nat := length (iss_obytes o).
+Definition iss_is_some {A} (o : option A) : bool := match o with Some _ => true | None => false end.
 
 (* Input.HasIssuance / HasReissuance / isBlindedIssuance *)
 Definition vi_has_issuance (i : v2in) : bool := (0 <? vi_value i) || (0 <? vi_keys i).
 Definition vi_has_reissuance (i : v2in) : bool :=
-  if (olen (vi_nonce i) =? 0)%nat then false else negb (bytes_eqb (obytes (vi_nonce i)) zero32b).
+  if (iss_olen (vi_nonce i) =? 0)%nat then false else negb (bytes_eqb (iss_obytes (vi_nonce i)) zero32b).
 Definition vi_is_blinded (i : v2in) : bool := match vi_blinded i with None => true | Some b => b end.
 
 (* the issuance object both getters build *)
 Definition vi_issuance (i : v2in) : iss_ext :=
-  if vi_has_reissuance i then from_entropy (obytes (vi_entropy i))
-  else match generate_entropy (from_contract_hash (obytes (vi_entropy i))) (vi_txid i) (vi_index i) with
+  if vi_has_reissuance i then from_entropy (iss_obytes (vi_entropy i))
+  else match generate_entropy (from_contract_hash (iss_obytes (vi_entropy i))) (vi_txid i) (vi_index i) with
        | Some x => x
-       | None => from_contract_hash (obytes (vi_entropy i))      (* error ignored: entropy stays nil *)
+       | None => from_contract_hash (iss_obytes (vi_entropy i))      (* error ignored: entropy stays nil *)
        end.
 (* GetIssuanceAssetHash / GetIssuanceInflationKeysHash (None = nil) *)
 Definition get_issuance_asset_hash (i : v2in) : option bytes :=
   if negb (vi_has_issuance i) then None else generate_asset (vi_issuance i).
 Definition get_issuance_keys_hash (i : v2in) : option bytes :=
-  if negb (vi_has_issuance i) then None else generate_token (vi_issuance i) (flag_of (vi_is_blinded i)).
+  if negb (vi_has_issuance i) then None else generate_token (vi_issuance i) (iss_flag_of (vi_is_blinded i)).
 
 (* AddInIssuanceArgs.validate *)
 Definition v2_validate (a : iss_args) : bool :=
@@ -346,11 +347,11 @@ Definition v2_index_ok (p : v2pkt) (idx : Z) : option v2in :=
   if (idx <? 0)%Z || (Z.of_N (v2_incount p) - 1 <? idx)%Z then None
   else match nth_error (v2_ins p) (Z.to_nat idx) with
        | None => None          (* Go: index out of range panic; excluded by the packet invariant *)
-       | Some i => if is_some (vi_entropy i) then None else Some i
+       | Some i => if iss_is_some (vi_entropy i) then None else Some i
        end.
 
 (* parseAddress + OutputArgs.toPartialOutput + the NeedsBlinding fix-up *)
-Definition v2_new_output (asset : bytes) (amount : N) (a : addr) (arg_bidx final_bidx : N) : v2out :=
+Definition v2_new_output (asset : bytes) (amount : N) (a : iss_addr) (arg_bidx final_bidx : N) : v2out :=
   let key := if ad_conf a then ad_key a else [] in
   mk_v2out amount asset (ad_script a) key (if (0 <? length key)%nat then final_bidx else arg_bidx) None None None.
 
@@ -361,11 +362,12 @@ Definition v2_add_output (p : v2pkt) (o : v2out) : option v2pkt :=
   else Some (mk_v2pkt (v2_incount p) (v2_outcount p + 1) (v2_outs_modifiable p) (v2_ins p) (v2_outs p ++ [o])).
 
 Definition v2_set_in (p : v2pkt) (idx : nat) (f : v2in -> v2in) : v2pkt :=
-  mk_v2pkt (v2_incount p) (v2_outcount p) (v2_outs_modifiable p) (set_nth idx f (v2_ins p)) (v2_outs p).
+  mk_v2pkt (v2_incount p) (v2_outcount p) (v2_outs_modifiable p) (iss_set_nth idx f (v2_ins p)) (v2_outs p).
 
-(* Updater.AddInIssuance.  Pset.Copy is shallow: the writes to p.Inputs[inputIndex] land in the
-   updater's own packet at once, whereas appended outputs and the output count only reach it
-   at the end.  The final SanityCheck of the whole packet is not modelled (C11). *)
+(* Updater.AddInIssuance.  The work is done on a copy of the packet (Pset.Copy copies the input
+   and output slices since fd68736) that replaces the updater's packet only at the end, so a
+   failed call leaves the packet as it was.  The final SanityCheck of the whole packet is not
+   modelled (C11). *)
 Definition v2_add_in_issuance (p : v2pkt) (idx : Z) (a : iss_args) : bool * v2pkt :=
   if negb (v2_validate a) then (false, p) else
   match v2_ins p with
@@ -387,12 +389,12 @@ Definition v2_add_in_issuance (p : v2pkt) (idx : Z) (a : iss_args) : bool * v2pk
           let asset := match generate_asset iss with Some x => x | None => [] end in
           let bidx := Z.to_N idx mod 4294967296 in
           match v2_add_output p1 (v2_new_output asset (ia_asset a) (ia_aaddr a) bidx bidx) with
-          | None => (false, p1)
+          | None => (false, p)
           | Some p2 =>
             if 0 <? ia_token a then
-              let token := match generate_token iss (flag_of (ia_blinded a)) with Some x => x | None => [] end in
+              let token := match generate_token iss (iss_flag_of (ia_blinded a)) with Some x => x | None => [] end in
               match v2_add_output p2 (v2_new_output token (ia_token a) (ia_taddr a) bidx bidx) with
-              | None => (false, p1)
+              | None => (false, p)
               | Some p3 => (true, p3)
               end
             else (true, p2)
@@ -403,10 +405,10 @@ Definition v2_add_in_issuance (p : v2pkt) (idx : Z) (a : iss_args) : bool * v2pk
   end.
 
 Record reiss2_args := mk_reiss2_args {
-  r2_blinder : bytes; r2_entropy : option bytes; r2_asset : N; r2_token : N; r2_aaddr : addr; r2_taddr : addr }.
+  r2_blinder : bytes; r2_entropy : option bytes; r2_asset : N; r2_token : N; r2_aaddr : iss_addr; r2_taddr : iss_addr }.
 
 Definition v2_reiss_validate (a : reiss2_args) : bool :=
-  (length (r2_blinder a) =? 32)%nat && negb (bytes_eqb (r2_blinder a) zero32b) && hex32 (r2_entropy a) &&
+  (length (r2_blinder a) =? 32)%nat && negb (bytes_eqb (r2_blinder a) zero32b) && iss_hex32 (r2_entropy a) &&
   negb (r2_asset a =? 0) && negb (r2_token a =? 0) &&
   ad_present (r2_aaddr a) && ad_valid (r2_aaddr a) && ad_present (r2_taddr a) && ad_valid (r2_taddr a).
 
@@ -416,7 +418,7 @@ Definition v2_add_in_reissuance (p : v2pkt) (idx : Z) (a : reiss2_args) : bool *
   | None => (false, p)
   | Some _ =>
     if negb (v2_reiss_validate a) then (false, p) else
-    let entropy := rev (obytes (r2_entropy a)) in
+    let entropy := rev (iss_obytes (r2_entropy a)) in
     let iss := from_entropy entropy in
     let asset := match generate_asset iss with Some x => x | None => [] end in
     let bidx := Z.to_N idx mod 4294967296 in
@@ -435,33 +437,30 @@ Definition v2_add_in_reissuance (p : v2pkt) (idx : Z) (a : reiss2_args) : bool *
   end.
 
 (* ---------- the transaction's view of a v2 packet ---------- *)
-(* Pset.UnsignedTx: issuance of one input *)
-Definition unsigned_issuance (i : v2in) : option issuance :=
+(* Pset.UnsignedTx and Extract build the issuance of one input by the same rules: present when the
+   entropy field is, amounts from the commitment if there is one, else explicit when non-zero,
+   else the null amount *)
+Definition tx_issuance_of (i : v2in) : option issuance :=
   match vi_entropy i with
   | None => None
   | Some e =>
-      let amount := match vi_vcommit i with Some c => c | None => value_to_bytes (vi_value i) end in
+      let amount := match vi_vcommit i with
+                    | Some c => c
+                    | None => if 0 <? vi_value i then iss_value_to_bytes (vi_value i) else [x00]
+                    end in
       let token := match vi_kcommit i with
                    | Some c => c
-                   | None => if 0 <? vi_keys i then value_to_bytes (vi_keys i) else [x00]
+                   | None => if 0 <? vi_keys i then iss_value_to_bytes (vi_keys i) else [x00]
                    end in
-      Some (mk_iss (obytes (vi_nonce i)) e amount token)
+      Some (mk_iss (iss_obytes (vi_nonce i)) e amount token)
   end.
-(* Extract: issuance of one input *)
-Definition extract_issuance (i : v2in) : option issuance :=
-  if (0 <? vi_value i) || is_some (vi_vcommit i) then
-    let amount := match vi_vcommit i with Some c => c | None => value_to_bytes (vi_value i) end in
-    let token := match vi_kcommit i with
-                 | Some c => c
-                 | None => if 0 <? vi_keys i then value_to_bytes (vi_keys i) else [x00]
-                 end in
-    Some (mk_iss (obytes (vi_nonce i)) (obytes (vi_entropy i)) amount token)
-  else None.
+Definition unsigned_issuance (i : v2in) : option issuance := tx_issuance_of i.
+Definition extract_issuance (i : v2in) : option issuance := tx_issuance_of i.
 
 (* asset, value, script, nonce of one output (UnsignedTx; Extract agrees on unblinded outputs) *)
 Definition unsigned_output (o : v2out) : txout :=
   mk_out (match vo_acommit o with Some c => c | None => explicit_asset (vo_asset o) end)
-         (match vo_vcommit o with Some c => c | None => value_to_bytes (vo_value o) end)
+         (match vo_vcommit o with Some c => c | None => iss_value_to_bytes (vo_value o) end)
          (vo_script o)
          (match vo_ecdh o with Some c => c | None => [x00] end) [] [].
 
@@ -469,5 +468,5 @@ Definition unsigned_output (o : v2out) : txout :=
 Definition expected_issuance (i : v2in) : option issuance :=
   match vi_entropy i with
   | None => None
-  | Some e => Some (mk_iss (obytes (vi_nonce i)) e (issuance_amount (vi_value i)) (issuance_amount (vi_keys i)))
+  | Some e => Some (mk_iss (iss_obytes (vi_nonce i)) e (issuance_amount (vi_value i)) (issuance_amount (vi_keys i)))
   end.
